@@ -472,7 +472,17 @@ impl Value {
 	#[cfg(feature = "canonicalize")]
 	pub fn canonicalize_with(&mut self, buffer: &mut ryu_js::Buffer) {
 		match self {
-			Self::Number(n) => *n = NumberBuf::from_number(n.canonical_with(buffer)),
+			Self::Number(n) => {
+				// RFC 8785 serializes the IEEE-754 double *nearest* to the
+				// number (`str::parse` is correctly rounded, the number
+				// library's own conversion is not).
+				*n = match n.as_str().parse::<f64>() {
+					Ok(f) if f.is_finite() => unsafe {
+						NumberBuf::new_unchecked(buffer.format_finite(f).as_bytes().into())
+					},
+					_ => NumberBuf::from_number(n.canonical_with(buffer)),
+				}
+			}
 			Self::Array(a) => {
 				for item in a {
 					item.canonicalize_with(buffer)
